@@ -68,7 +68,17 @@ def verify_contract(name, timeout_ms=20000, repo_root=None, want_model=True, var
         by_name = {}
         for (nm, ob), r in zip(flat, results):
             by_name.setdefault(nm, []).append((ob, r))
+        covers = [nm for nm in order if nm.endswith('cover.path_reachable')]
+        if covers:
+            rs = [r for nm in covers for ob, r in by_name[nm]]
+            reach = sum(1 for r in rs if r.status != 'proved')
+            out['reachable_return_paths'] = reach
+            out['return_paths'] = len(rs)
+            if reach == 0:
+                out['vacuity'] = 'unsat'       # every returning path has contradictory hypotheses: nothing was proved about real runs
         for nm in order:
+            if nm.endswith('cover.path_reachable'):
+                continue
             worst, secs, detail, model, nsub, kind = 'proved', 0.0, None, None, 0, None
             for ob, r in by_name[nm]:
                 secs += r.seconds
@@ -206,7 +216,8 @@ def main(argv):
         names = sorted(n for n, c in reg.items() if not c.trusted)
     res = verify_many(names)
     for r in res:
-        print("== %s %s [%s] %.2fs paths=%s vacuity=%s" % (r['function'], r.get('variant') or '', r['status'], r['seconds'], r.get('paths'), r.get('vacuity')))
+        print("== %s %s [%s] %.2fs paths=%s vacuity=%s reachable=%s/%s" % (r['function'], r.get('variant') or '', r['status'], r['seconds'], r.get('paths'), r.get('vacuity'),
+                                                                              r.get('reachable_return_paths'), r.get('return_paths')))
         if r['error']:
             print("   ERROR:", r['error'])
         for o in r['obligations']:
